@@ -488,6 +488,9 @@ pub fn att_count() -> usize {
 pub fn att(i: usize) -> Att {
     unsafe { ATTS[i] }
 }
+pub fn att_pay(i: usize) -> [u8; PAY] {
+    unsafe { ATTS[i].pay }
+}
 pub fn pair_of(fd: c_int) -> c_int {
     unsafe { S.pairs.as_ref().unwrap().get(&fd).copied().unwrap_or(-1) }
 }
